@@ -2,21 +2,15 @@ package main
 
 import (
 	"fmt"
+	"os"
 
-	"github.com/goplus/xgo/parser/fsx/memfs"
-	"github.com/goplus/xgo/x/build"
+	"vh/internal/g9cl"
 )
 
 func main() {
-	seen := map[string]int{}
-	for i := 0; i < 40; i++ {
-		fs := memfs.New(map[string][]string{"/foo": {"a.xgo", "b.xgo"}}, map[string]string{
-			"/foo/a.xgo": "package a\n\nfunc A() {}\n", "/foo/b.xgo": "package b\n\nfunc B() {}\n"})
-		ctx := build.Default()
-		data, err := ctx.BuildFSDir(fs, "/foo")
-		seen[fmt.Sprintf("%q %v", data, err)]++
-	}
-	for k, v := range seen {
-		fmt.Println(v, k)
-	}
+	exp, _ := g9cl.LoadExports(os.Args[1])
+	b, _ := os.ReadFile(os.Args[2])
+	r := g9cl.Compile(exp, []g9cl.File{{Name: "a.xgo", Src: string(b)}}, g9cl.Options{NoFileLine: true})
+	fmt.Println("PARSE:", r.ParseErr, "ERRS:", r.Errs, "PANIC:", r.Panic)
+	fmt.Println(r.Go)
 }
